@@ -148,6 +148,55 @@ def check_grad(params):
     return out
 
 
+def check_sum_grad(params):
+    """Gradients of formal sums and second derivatives (a gradient is itself a sum)."""
+    import sympy
+    cls, mixed = params["cls"], params["mixed"]
+    d, ns = build_diagram(cls, params["layers"])
+    x, y = ns["x"], ns["y"]
+    v1, v2 = ns[params["vars"][0]], ns[params["vars"][1]]
+    out = []
+    if cls == "circuit" and not mixed and d.is_mixed:
+        return out
+    if cls == "circuit" and mixed and (pure_scalar_depends(d, v1) or pure_scalar_depends(d, v2)):
+        return out      # recorded known finding, see check_grad
+    kw = dict(mixed=mixed) if cls == "circuit" else {}
+    try:
+        sym = ev(cls, d, mixed)
+        s2 = (d + d).grad(v1, **kw)
+        if cls == "circuit":
+            g2 = d.grad(v1, **kw).grad(v2, **kw)
+            a2 = np.asarray(getattr(g2.eval(**kw), "array", g2.eval(**kw)), dtype=object)
+        else:
+            a2 = None
+        b2 = np.asarray(getattr(s2.eval(**kw), "array", s2.eval(**kw)), dtype=object)
+    except NotImplementedError:
+        params["_refused"] = True
+        return out
+    except Exception as e:  # noqa
+        out.append((_sig("sum-grad-raises", params), "[%s] %s: second derivative / gradient of a sum raised %s: %s"
+                    % (cls, d, type(e).__name__, str(e)[:140])))
+        return out
+    want2 = np.array([sympy.diff(sympy.sympify(e), v1, v2) for e in sym.flatten()], dtype=object)
+    want1 = np.array([2 * sympy.diff(sympy.sympify(e), v1) for e in sym.flatten()], dtype=object)
+    for (vx, vy) in POINTS[:2]:
+        env = {x: vx, y: vy}
+        cases = [("(d + d).grad(%s)" % v1, b2, want1)]
+        if cls == "circuit":   # tensor boxes differentiate through non-polynomial bubbles: no 2nd derivative
+            cases.append(("d.grad(%s).grad(%s)" % (v1, v2), a2, want2))
+        for label, got, want in cases:
+            w = num(want, env)
+            if got.size == 1 and np.all(w == 0) and num(got, env)[0] == 0:
+                continue
+            g = num(got, env)
+            if g.shape != w.shape or not np.all(np.abs(g - w) <= 1e-7 * (1 + np.abs(w))):
+                out.append((_sig("sum-gradient", params), "[%s] %s (mixed=%s): %s evaluates to %s (%d entries), expected %s "
+                            "(%d entries)" % (cls, d, mixed, label, np.round(g, 4).tolist()[:4], g.size,
+                                              np.round(w, 4).tolist()[:4], w.size)))
+                return out
+    return out
+
+
 def pure_scalar_depends(d, var):
     from discopy.quantum import gates
     return any(isinstance(b, gates.Scalar) and not b.is_mixed and var in b.free_symbols for b in d.boxes)
@@ -211,7 +260,8 @@ def check_jacobian(params):
     return out
 
 
-CASES = {k: safe("C15", f) for k, f in {"grad": check_grad, "jacobian": check_jacobian}.items()}
+CASES = {k: safe("C15", f) for k, f in {"grad": check_grad, "jacobian": check_jacobian,
+                                        "sumgrad": check_sum_grad}.items()}
 
 
 def _worker(shard):
@@ -273,6 +323,10 @@ def run(ctx):
                 for mixed in ((False, True) if cls == "circuit" else (False,)):
                     items.append(("grad", dict(cls=cls, layers=s, var=var, mixed=mixed,
                                                n_points=3 if ctx.quick else 5)))
+        for s in seqs[::4]:
+            for vs in (["x", "x"], ["x", "y"]):
+                for mixed in ((False, True) if cls == "circuit" else (False,)):
+                    items.append(("sumgrad", dict(cls=cls, layers=s, vars=vs, mixed=mixed)))
         for s in seqs[::5]:
             for vs in (["x"], ["x", "y"], ["y", "x"]):
                 # circuits: the extra Digit wire makes the jacobian a classical-quantum map
